@@ -14,7 +14,7 @@ import pickle as _real_pickle
 import numpy as np
 import z3
 
-from .core import Sym, cur, is_sym, lift
+from .core import SymUnsupported, Sym, cur, is_sym, lift
 
 
 class Crash(BaseException):
@@ -289,10 +289,24 @@ class PandasStub:
         self.fs = fs
         outer = self
 
+        def _frame(d):
+            return MemFrame({k: (list(v) if not isinstance(v, np.ndarray) else list(v)) for k, v in d.items()})
+
         class DataFrame:
+            """pandas.DataFrame(data, columns=...) for a dict of columns or a 2-d array / list of rows, and DataFrame.from_dict"""
+
+            def __new__(cls, data=None, index=None, columns=None, **kw):
+                if isinstance(data, dict):
+                    d = data if columns is None else {k: data[k] for k in columns}
+                    return _frame(d)
+                arr = np.asarray(data, dtype=object)
+                if arr.ndim != 2 or columns is None or len(columns) != arr.shape[1]:
+                    raise SymUnsupported("pandas.DataFrame constructor form not modelled by the in-memory stand-in")
+                return _frame({k: list(arr[:, j]) for j, k in enumerate(columns)})
+
             @staticmethod
-            def from_dict(d):
-                return MemFrame({k: (list(v) if not isinstance(v, np.ndarray) else list(v)) for k, v in d.items()})
+            def from_dict(d, **kw):
+                return _frame(d)
 
         self.DataFrame = DataFrame
 
@@ -352,7 +366,9 @@ class MemDataset:
     def shape(self):
         return self.arr.shape
 
-    def resize(self, shape):
+    def resize(self, size, axis=None):
+        """h5py.Dataset.resize: a full shape tuple, or a new length of one axis"""
+        shape = tuple(size) if axis is None else tuple(int(size) if i == axis else d for i, d in enumerate(self.arr.shape))
         self.fs.op(f"h5 resize {self.path}")
         new = np.zeros(shape, dtype=object)
         n = min(shape[0], self.arr.shape[0])
